@@ -31,3 +31,11 @@ Theorem C16_owner_call_reproduced_example :
   model_obs w_ok_setwithdraw = impl_obs w_ok_setwithdraw /\ b_ok (model_obs w_ok_setwithdraw) = true.
 Proof. vm_compute. auto. Qed.
 Print Assumptions C16_owner_call_reproduced_example.
+
+(** non-vacuity for the ICS-20 precompile: the owner's transfer escrows exactly the amount, reproduced exactly *)
+Theorem C16_owner_ibc_transfer_reproduced_example :
+  model_obs w_ok_owner_transfer = impl_obs w_ok_owner_transfer /\
+  b_ok (model_obs w_ok_owner_transfer) = true /\ b_supply (model_obs w_ok_owner_transfer) = 0 /\
+  nth 13 (b_bal (model_obs w_ok_owner_transfer)) 0 = 700.
+Proof. exact ok_owner_transfer_conserves. Qed.
+Print Assumptions C16_owner_ibc_transfer_reproduced_example.
